@@ -20,7 +20,7 @@ DEFAULT_TOP = "{5fbaabe3-6958-40ff-92a7-860e329aab41}"
 
 def gen_cfg(rng, tier: str, big: bool = False) -> dict:
     ver = rng.choice([1, 2])
-    cl = rng.choice([1, 2, 8, 16, 32, 128, 2048] if tier == "quick" else [1, 2, 3, 8, 16, 17, 32, 64, 128, 256, 2048, 4096])
+    cl = rng.choice([1, 2, 8, 16, 32, 128, 2048, 3, 63, 96, 17] if tier == "quick" else [1, 2, 3, 8, 16, 17, 32, 63, 64, 96, 128, 255, 256, 2048, 4096])
     if big:
         cl = rng.choice([2048, 4096])
         if ver == 2:
